@@ -58,10 +58,14 @@ def gen_statement(rng):
             # one holding rounds to 100.0 next to 0.0 holdings
             parts = [0] * n
             parts[rng.randrange(n)] = 1000
+        if n >= 3 and 1000 not in parts and rng.random() < 0.3:
+            # allocations are printed rounded to one decimal: they may add up to 100.1 or 100.2 (six times 16.7)
+            for _ in range(rng.choice([1, 2])):
+                parts[rng.randrange(n)] += 1
         allocs = ["%d.%d" % (p // 10, p % 10) for p in parts]
     for i in range(n):
         lines = gen_desc_lines(rng)
-        fmv = comma_num(rng, 0, rng.choice([9, 999, 99999, 9999999]), rng.choice([1, 2]))
+        fmv = comma_num(rng, 0, rng.choice([9, 999, 99999, 9999999, 99999999]), rng.choice([1, 2]))
         own_line = rng.random() < 0.45
         if allocs[i] == "100.0" and rng.random() < 0.5:
             # the hard case for a holding at 100.0 %: figures on their own line under a description that itself
